@@ -119,20 +119,42 @@ def refines(st, got, want):
     # (accepted deviation: the trait documentation promises no length; reported in evidence as an observation)
     if want[0] == "scatter" and got == EMPTY and st.eq(t_len(want[1]), 0):
         return True
-    # scalar definitions written element-wise by the implementation
-    if want[0] in ("add", "sub") and got[0] == "lmap" and got[1] == ("zip", want[1], want[2]):
-        op = "+" if want[0] == "add" else "-"
-        if got[2] == ("user", ("binop", op, ("elem", want[1]), ("elem", want[2]))):
-            return True
-    if want[0] == "mulcadd" and got[0] == "emap" and got[1] == ("zip", want[1], want[3]):
-        a_, b_ = Poly.atom(("elem", want[1])), Poly.atom(("elem", want[3]))
-        if as_poly(got[2]) == a_ * as_poly(want[2]) + b_:
-            return True
-    if want[0] in ("quot", "rem") and got[0] == "emap" and got[1] == want[1]:
-        op = "/" if want[0] == "quot" else "%"
-        if as_poly(got[2]) == Poly.atom((op, Poly.atom(("elem", want[1])), as_poly(want[2]))):
-            return True
-    if want[0] == "repeat" and got[0] == "flat" and got[1] == ("zip", want[1], want[2]):
+    # scalar definitions written element-wise by the implementation: whatever the loop iterates over (the arrays
+    # zipped, an index range, an enumeration), every array is read at the running position, so the arbitrary elements
+    # elem(A), elem(B) are position-aligned; compare the element formula and the length
+    def elementwise(t):
+        if t[0] == "emap":
+            return t_len(t[1]), as_poly(t[2])
+        if t[0] == "lmap" and t[2][0] == "user":
+            return t_len(t[1]), t[2][1]
+        return None
+    ew = elementwise(got)
+    if ew is not None:
+        n, body = ew
+        if want[0] in ("add", "sub") and st.eq(n, t_len(want[1])):
+            op = "+" if want[0] == "add" else "-"
+            if body == ("binop", op, ("elem", want[1]), ("elem", want[2])):
+                return True
+            if isinstance(body, Poly):
+                a_, b_ = Poly.atom(("elem", want[1])), Poly.atom(("elem", want[2]))
+                if body == (a_ + b_ if op == "+" else a_ - b_):
+                    return True
+        if want[0] == "mulcadd" and st.eq(n, t_len(want[1])) and isinstance(body, Poly):
+            a_, b_ = Poly.atom(("elem", want[1])), Poly.atom(("elem", want[3]))
+            if body == a_ * as_poly(want[2]) + b_:
+                return True
+        if want[0] in ("quot", "rem") and st.eq(n, t_len(want[1])) and isinstance(body, Poly):
+            op = "/" if want[0] == "quot" else "%"
+            if body == Poly.atom((op, Poly.atom(("elem", want[1])), as_poly(want[2]))):
+                return True
+        if want[0] == "shift" and st.eq(n, t_len(want[2])) and isinstance(body, Poly):
+            if body == Poly.atom(("elem", want[2])) + as_poly(want[1]):
+                return True
+        if want[0] == "gather" and st.eq(n, t_len(want[2])):
+            g = ("elem", ("gather", want[1], want[2]))
+            if body == g or (isinstance(body, Poly) and body == Poly.atom(g)):
+                return True
+    if want[0] == "repeat" and got[0] == "flat" and st.eq(t_len(got[1]), t_len(want[1])):
         x = got[2]
         if x[0] == "fill" and as_poly(x[2]) == Poly.atom(("elem", want[1])):
             v = as_poly(x[1])
